@@ -30,6 +30,8 @@ EXPLANATION = (
     "by splitting a dotted module name is its last component.  R05.14 (=R07.10): relative module lookup climbs (level - 1) packages on every path."
     ' R05.17: the folder of the import filter belongs to the resource the organised module was built for.'
 )
+EXPLANATION += " R05.19: in the anchored modules and the shared text utilities no source text is cut with str.splitlines() (it breaks at form feed, \x1c-\x1e, \x85, U+2028/9; rope's and the ast's line numbers count \n only)."
+EXPLANATION += " R05.20 (=R07.19): the used-name finder that decides which imports travel with moved code visits every non-body child of a def / class in the enclosing scope."
 ASSUMPTIONS = [
     "helper summaries: self.m() resolves through the class MRO; x.y.m() is attributed to every method m of the analysed modules",
     "ChangeSet.do applies changes in insertion order (decided under C10/C11)",
@@ -220,6 +222,12 @@ def check(ctx, res) -> None:
     _shared(ctx, res)
     _import_filter_folder_rule(ctx, res)
     _stale_import_cleanup_rule(ctx, res)
+    from .common import line_model_rule as _lm
+
+    _lm(ctx, res, "R05.19", ('rope.refactor.move', 'rope.refactor.rename', 'rope.refactor.topackage', 'rope.refactor.importutils', 'rope.refactor.importutils.module_imports', 'rope.refactor.importutils.actions', 'rope.base.libutils'))
+    from .c07 import header_children_rule
+
+    header_children_rule(ctx, res, "R05.20")
 
 
 def _check_main(ctx, res) -> None:
